@@ -6,6 +6,7 @@
 (*    new   - an evaluator is created (flop, ranges, scope) and iterated   *)
 (*    next  - one yielded showdown: board, hole cards, dyadic probability  *)
 (*    none  - next() returned None                                         *)
+(*    abandon - the iterator is dropped (configurations too large to drain)*)
 (* Each next event must be a Yield of FlopEnum: a legal deal, inside the   *)
 (* scope, not yet yielded, at a position not before the current one, with  *)
 (* every position in between drained; each first none must be an Exhaust   *)
@@ -53,7 +54,10 @@ TraceNone ==
      \/ /\ st = "exhausted" /\ st' = st
   /\ l' = l + 1 /\ UNCHANGED <<cfg, deck, pos, seen, seenH>>
 
-TNext == TraceNew \/ TraceNext \/ TraceNone
+\* an iterator that is too large to drain is dropped after its first showdowns (nothing is claimed about the rest)
+TraceAbandon == /\ l <= Len(Rec) /\ Rec[l].op = "abandon" /\ st = "running" /\ st' = "exhausted"
+                /\ l' = l + 1 /\ UNCHANGED <<cfg, deck, pos, seen, seenH>>
+TNext == TraceNew \/ TraceNext \/ TraceNone \/ TraceAbandon
 TSpec == TInit /\ [][TNext]_tvars
 \* acceptance: the whole trace was consumed; otherwise print the first event that matches no action
 Accepted == IF TLCGet("stats").diameter - 1 = Len(Rec) THEN TRUE
